@@ -276,7 +276,7 @@ func init() {
 func c04Run(c *fw.Ctx, i int) {
 	kws := c04Keywords()
 	r := c.R
-	reps := 4
+	reps := 12
 	if c.Thorough() {
 		reps = 400
 	}
